@@ -53,13 +53,12 @@ def register(PROPS):
         'engine': 'E2',
         'level': 'model_checking',
         'technique': 'explicit-state exploration of the real echsd command handling against a map model',
-        'claim': 'Peers 1000 and 1001 (and root for listing) over UIDs {A, B (same table slot as A), CC}: every history up to the stated depth over '
+        'claim': 'Peers 1000 and 1001 (and root for listing) over UIDs {A, a UID searched at start-up whose 32-bit hash agrees with A\'s in the low 6-10 bits (the 16-slot table must grow by much more than double), a UID in another slot with hash bits between the old and the new table size}: every history up to the stated depth over '
                  '{ADD with owner field absent / = self / = other, two instructions in one request, CANCEL (also of unknown and foreign UIDs), '
                  'GET /queue (own and another user\'s), GET /sched, TICK} is executed; the number and kind of REQUEST-STATUS replies, the task '
                  'table with owners, the bodies of the listings (no foreign or stale UID, own queued UIDs present) and the SETUID of every started '
                  'job are compared with a map<UID, (owner, schedule)> model.',
-        'note': E2_NOTE + '  Oids are obarray offsets, not hashes: same-length UIDs share the low 8 bits and force the table-growth path; the '
-                'multi-gigabyte growth reachable with far-apart oids is outside the alphabet.',
+        'note': E2_NOTE + '  Task oids are 32-bit hashes of the UID; the multi-gigabyte table growth reachable with hashes that agree in 25+ low bits is outside the alphabet.',
         'rule': 'as C04',
         'bound': {'quick': 'depth 4', 'thorough': 'depth 5'},
         'counter_map': {'states': 'states', 'transitions': 'transitions', 'traces_validated_against_impl': 'traces'},
